@@ -56,7 +56,7 @@ def judge(case, go):
                                 {"only_first": sorted(e0 - errs(r))[:6], "only_second": sorted(errs(r) - e0)[:6], "first_run_errors": fresh[0]["errors"]}))
                 else:
                     out.append(("error messages differ between two validations of the same document (mode continue=%s, %s vs %s)" % (cont, fresh[0]["tag"], r["tag"]),
-                                {"only_first": sorted(e0 - errs(r))[:6], "only_second": sorted(errs(r) - e0)[:6]}))
+                                {"only_first": sorted(e0 - errs(r))[:6], "only_second": sorted(errs(r) - e0)[:6], "first_run_errors": fresh[0]["errors"]}))
                 break
             if set(r["warnings"]) != w0:
                 out.append(("warning messages differ between two validations of the same document (mode continue=%s, %s vs %s)" % (cont, fresh[0]["tag"], r["tag"]),
